@@ -103,6 +103,8 @@ class Env:
         (self.root / "out").mkdir()
         tempfile.tempdir = str(self.root / "tmp")
         self.path = self.root / "out" / "e.tar"
+        self.path2 = self.root / "out2" / "copy.tar"
+        (self.root / "out2").mkdir()
         self.compute_fail_at = None
         self.compute_calls = 0
 
@@ -163,6 +165,26 @@ class Env:
             if self.compute_fail_at == self.compute_calls:
                 raise RuntimeError("injected user-code failure")
 
+    def session_copy(self):
+        """An edit session that ends with a deep copy to a second path (the edit itself is abandoned)."""
+        from eko.io.struct import EKO
+
+        class _Abandon(Exception):
+            pass
+
+        try:
+            with EKO.edit(self.path) as e:
+                e[(77.0, 5)] = _synth(("new", 77.0))
+                e.metadata.version = "9.9.9"
+                e.update()
+                self.compute_calls += 1
+                if self.compute_fail_at == self.compute_calls:
+                    raise RuntimeError("injected user-code failure")
+                e.deepcopy(self.path2)
+                raise _Abandon()
+        except _Abandon:
+            pass
+
     def prepare_prev(self):
         """A complete previous archive for the edit session (no faults, not recorded)."""
         self.session_new()
@@ -172,18 +194,19 @@ class Env:
     def classify_archive(self, kind):
         from eko.io.struct import EKO
 
-        if not self.path.exists():
+        path = self.path2 if kind == "copy" else self.path
+        if not path.exists():
             return "absent"
-        if kind == "edit" and self.path.read_bytes() == self.prev_bytes:
+        if kind == "edit" and path.read_bytes() == self.prev_bytes:
             return "prev"
         try:
-            with EKO.read(self.path) as e:
+            with EKO.read(path) as e:
                 eps = sorted(e)
                 ok = True
                 for ep in eps:
                     ok = ok and e[ep] is not None and bool(np.isfinite(e[ep].operator).all())
                 want = [(9.0, 4), (100.0, 5)]
-                if kind == "edit":
+                if kind in ("edit", "copy"):
                     want = sorted(want + [(77.0, 5)])
                     ok = ok and e.metadata.version == "9.9.9"
                 ok = ok and [(float(a), int(b)) for a, b in eps] == want
@@ -195,8 +218,8 @@ class Env:
     def classify_step(self, rec):
         """Name of an effect in the vocabulary of FsFault.tla."""
         event, p, mode, dst = rec
-        arch = str(self.path)
-        outdir = str(self.path.parent)
+        arch = str(self.path2 if getattr(self, "kind", "") == "copy" else self.path)
+        outdir = str(pathlib.Path(arch).parent)
         tmpdir = str(self.root / "tmp")
         if p == arch:
             if event == "os.remove":
@@ -217,13 +240,14 @@ class Env:
         return "tmp"
 
 
-def run_session(kind, fail_at=None, compute_fail_at=None, tar_member_fail=None):
+def run_session(kind, fail_at=None, compute_fail_at=None, tar_member_fail=None, retry_fail_at=None):
     """Run one session in a fresh world; returns dict(steps, raised, arc, retry, n, fired)."""
     install()
     env = Env()
+    env.kind = kind
     st = _STATE
     try:
-        if kind == "edit":
+        if kind in ("edit", "copy"):
             env.prepare_prev()
             env.compute_calls = 0
         env.compute_fail_at = compute_fail_at
@@ -246,7 +270,7 @@ def run_session(kind, fail_at=None, compute_fail_at=None, tar_member_fail=None):
                 return orig_addfile(self, tarinfo, fileobj)
             tarfile.TarFile.addfile = addfile
         try:
-            (env.session_new if kind == "new" else env.session_edit)()
+            {"new": env.session_new, "edit": env.session_edit, "copy": env.session_copy}[kind]()
         except BaseException as ex:  # noqa: BLE001
             raised = type(ex).__name__
         finally:
@@ -256,23 +280,43 @@ def run_session(kind, fail_at=None, compute_fail_at=None, tar_member_fail=None):
         fired = st["fired"] or (compute_fail_at is not None and raised != "")
         steps = [env.classify_step(r) for r in log]
         arc = env.classify_archive(kind)
-        # a subsequent run on the same path
+        orig_intact = True
+        if kind == "copy":
+            orig_intact = env.path.exists() and env.path.read_bytes() == env.prev_bytes
+        # a subsequent run on the same path; optionally with a second fault, followed by a clean one
         retry = True
         env.compute_fail_at = None
-        try:
+        arc_after_second = ""
+
+        def again():
             if kind == "new":
-                if arc == "new":
-                    pass
-                else:
+                if env.classify_archive("new") != "new":
                     env.session_new()
-                    retry = env.classify_archive("new") == "new"
-            else:
-                env.compute_calls = 0
-                env.session_edit()
-                retry = env.classify_archive("edit") == "new"
+                return env.classify_archive("new") == "new"
+            if kind == "copy":
+                if env.classify_archive("copy") != "new":
+                    env.compute_calls = 0
+                    env.session_copy()
+                return env.classify_archive("copy") == "new"
+            env.compute_calls = 0
+            env.session_edit()
+            return env.classify_archive("edit") == "new"
+
+        if retry_fail_at is not None:
+            st.update(armed=True, root=str(env.root), log=[], count=0, fail_at=retry_fail_at, fired=False)
+            try:
+                again()
+            except BaseException:  # noqa: BLE001
+                pass
+            finally:
+                st["armed"] = False
+            arc_after_second = env.classify_archive(kind)
+        try:
+            retry = again()
         except BaseException:  # noqa: BLE001
             retry = False
-        return {"kind": kind, "steps": steps, "raised": raised, "arc": arc, "retry": retry,
+        return {"kind": kind, "steps": steps, "raised": raised, "arc": arc, "retry": retry, "origIntact": bool(orig_intact),
+                "arc2nd": arc_after_second,
                 "n": len(log), "fired": bool(fired), "members": calls["n"], "computes": env.compute_calls}
     finally:
         st["armed"] = False
